@@ -91,6 +91,17 @@ func propC07(c *ctx) error {
 		{[][2]string{{"t", `<template :define="card-a">A</template><template :define="card-b">B</template><ul><li :range="_, k : ks" :insert="card-${k}">x</li></ul>`}}, "t", `<ul><li>A</li><li>B</li><li>A</li></ul>`, ""},
 		{[][2]string{{"t", `<template :define="card-a">A</template><template :define="card-b">B</template><p :range="_, k : ks" :replace="card-${k}">x</p>|<p :range="_, k : ks"><i :with="j := ${k}" :insert="${'card-'}${j}">x</i></p>`}}, "t", `ABA|<p><i>A</i></p><p><i>B</i></p><p><i>A</i></p>`, ""},
 		{[][2]string{{"t", `<template :define="card-a">A</template><ul><li :range="_, k : ks" :insert="card-${k}">x</li></ul>`}}, "t", "", "tplNotFound"},
+		// a whole FILE used as a fragment is not a definition: its content is taken as written, blank text at its start and
+		// end included (trimming applies to the content of :define elements only)
+		{[][2]string{{"t", `<pre :insert="part.html">old</pre>`}, {"part.html", "\n<b>x</b>\n"}}, "t", "<pre>\n<b>x</b>\n</pre>", ""},
+		{[][2]string{{"t", `[<pre :replace="part.html">old</pre>]`}, {"part.html", "  <b>x</b>\n\t"}}, "t", "[  <b>x</b>\n\t]", ""},
+		{[][2]string{{"t", `<pre :insert="part.html">old</pre>`}, {"part.html", "text only\n"}}, "t", "<pre>text only\n</pre>", ""},
+		{[][2]string{{"t", `<pre :insert="part.html">old</pre>|<pre :insert="frag">old</pre>`}, {"part.html", " \n<p :define=\"frag\"> <i>f</i> </p>\n "}}, "t", "<pre> \n\n </pre>|<pre><i>f</i></pre>", ""},
+		// remove="all-but-first" (and "body") on the SAME element as insert / replace / define, with child elements: the
+		// host's own children are discarded by the fragment directive, the fragment content is what is rendered
+		{[][2]string{{"t", `<p :define="items"><li>real</li></p><ul :insert="items" :remove="all-but-first"><li>proto 1</li><li>proto 2</li></ul>`}}, "t", `<ul><li>real</li></ul>`, ""},
+		{[][2]string{{"t", `<p :define="items"><li>real</li><li>real 2</li></p>[<ul :replace="items" :remove="all-but-first"><li>proto 1</li><li>proto 2</li></ul>]`}}, "t", `[<li>real</li><li>real 2</li>]`, ""},
+		{[][2]string{{"t", `[<ul :define="other" :remove="all-but-first"><li>proto 1</li><li>proto 2</li></ul>]<q :insert="other">o</q>`}}, "t", `[]<q><li>proto 1</li><li>proto 2</li></q>`, ""}, // (the fragment is the CONTENT of the defining element; its other directives play no part)
 		// MANY fragment calls from one level are not nesting: 300 rows through replace and through insert
 		{[][2]string{{"t", `<template :define="row">R</template><p :range="_, k : big" :replace="row">x</p>|<i :range="_, k : big" :insert="row">x</i>`}}, "t", strings.Repeat("R", 300) + "|" + strings.Repeat("<i>R</i>", 300), ""},
 		// a recursive fragment bounded by the data (tree rendering)
